@@ -43,7 +43,9 @@ type c13Tree struct {
 	parent   *c13Tree
 }
 
-func c13Plain(kind int, s string) *c13Scalar { return &c13Scalar{Kind: kind, Boxes: []c13Box{{Str: s}}} }
+func c13Plain(kind int, s string) *c13Scalar {
+	return &c13Scalar{Kind: kind, Boxes: []c13Box{{Str: s}}}
+}
 
 func (v c13Scalar) text() string { // ScalarString of a plain scalar
 	if len(v.Boxes) == 0 || v.Boxes[0].Sub != nil {
